@@ -2,6 +2,8 @@ package vh
 
 // C05 Unsatisfiable dependency => dependent is skipped, transitively, never launched.
 
+import "strings"
+
 func init() { registry["C05"] = &propDef{e1: c05Scenarios} }
 
 // howEnded classifies the way a dependency reached its terminal state.
@@ -66,6 +68,9 @@ func (g *gcfg) c05Check(w *World) []Violation {
 			dn := g.nodes[d]
 			if dn.Disabled {
 				continue
+			}
+			if n.Disabled && findEvent(tr, 0, func(e Event) bool { return e.Kind == "api-ret" && strings.HasPrefix(e.Data, "start("+name+")") }) < 0 {
+				continue // a disabled process nobody has started (yet) is not scheduled to run
 			}
 			fd := final(d)
 			dTerminal := isTerminal(fd) || (fd == "Terminating" && howEnded(tr, d) == "stopped-pending")
@@ -165,6 +170,25 @@ func c05Scenarios(tier string) []*Scenario {
 		add([]GNode{slow, b, {Name: "c", Beh: "ok", Deps: map[string]string{"b": cSucc}}}, []APICall{{Op: "stop", Name: "a"}})
 		// fan-out
 		add([]GNode{depNodeFor("a", c1, "unsat"), {Name: "b", Beh: "ok", Deps: map[string]string{"a": c1}}, {Name: "c", Beh: "ok", Deps: map[string]string{"a": c1}}})
+	}
+	// the dependent in the middle is stopped by the user while it is still pending; its dependency fails
+	// afterwards; a disabled process depending on the middle one is then started by hand
+	for _, c1 := range conds {
+		a := depNodeFor("a", c1, "unsat")
+		b := GNode{Name: "b", Beh: "ok", Deps: map[string]string{"a": c1}}
+		c := GNode{Name: "c", Beh: "ok", Deps: map[string]string{"b": cSucc}, Disabled: true}
+		stopped := func(w *World) bool {
+			for _, r := range w.apiRes {
+				if r.Call.Op == "stop" && r.Done {
+					return true
+				}
+			}
+			return false
+		}
+		aEnded := func(w *World) bool { return len(w.procs) > 0 && !w.procs[0].Alive() && w.lastStat["a"] != "Running" && w.lastStat["a"] != "" }
+		add([]GNode{a, b, c, {Name: "x", Beh: "daemon"}}, []APICall{{Op: "stop", Name: "b"}, {Op: "start", Name: "c", When: aEnded}})
+		sc := scs[len(scs)-1]
+		sc.Procs["a"].Hold = func(w *World, pc int) bool { return !stopped(w) }
 	}
 	if tier == "thorough" {
 		for _, sc := range scs {
